@@ -241,9 +241,9 @@ def run_case(case):
                 if u["kind"] == "root":
                     z = (new[ui].astype(np.float64) - m0_now[ui]) / u["s0"]
                     res.mon("root_draw_standardised", z.size)
-                    if np.any(np.abs(z) > 7) or (z.size and np.array_equal(new[ui], prev[ui])):
+                    if np.any(~(np.abs(z) <= 7)) or (z.size and np.array_equal(new[ui], prev[ui])):
                         zs = (new[ui].astype(np.float64) - u["m0"]) / u["s0"]
-                        mech = "stale-ancestor-values" if u.get("hyper") and not np.any(np.abs(zs) > 7) else "root-draw"
+                        mech = "stale-ancestor-values" if u.get("hyper") and bool(np.all(np.abs(zs) <= 7)) else "root-draw"
                         res.violation(mech, f"root {u['name']}: standardised draw {z.ravel()[:4].tolist()} "
                                       f"(not a fresh N(m0,s0) draw; m0 = {m0_now[ui]}" +
                                       (", set through its hyper-parameter right before simulate(); the build-time value was "
@@ -255,7 +255,7 @@ def run_case(case):
                     dev = np.abs(new[ui].astype(np.float64) - loc)
                     tol = 8 * u["scale"] + 2e-5 * np.abs(loc) + 2e-3
                     res.mon("child_at_f_of_new_parent")
-                    if np.any(dev > tol):
+                    if np.any(~(dev <= tol)):
                         near_stale = bool(np.all(np.abs(new[ui].astype(np.float64) - loc_stale)
                                                  <= 8 * u["scale"] + 2e-5 * np.abs(loc_stale) + 2e-3))
                         mech = "stale-ancestor-values" if near_stale else "child-not-at-conditional"
@@ -382,7 +382,7 @@ def finalize(ctx):
         zv = (np.mean(z ** 2) - 1) * np.sqrt(n / 2)
         ctx.mon("root_draw_moments")
         ctx.notes["root_draws"] = {"n": n, "z_mean": float(zm), "z_var": float(zv)}
-        if abs(zm) > 6 or abs(zv) > 6:
+        if not (abs(zm) <= 6 and abs(zv) <= 6):
             ctx.violation("root-draw-moments", f"standardised root draws: n={n}, z(mean)={zm:.1f}, z(var)={zv:.1f}")
 
 
